@@ -22,10 +22,10 @@ _LOW = dict(ROReplace=0.3, RODelete=0.25, ReadyToAir=0.3, MetadataReplace=0.6)
 PROFILES = {
     # name: knobs
     'story': dict(weights=_w(0.15, **{t: 1.0 for t in STORY_OPS}, **_LOW), max_stories=8, max_steps=24,
-                  meta_placement=['before', 'mixed', 'mixed', 'after'], max_items=3, max_paras=2),
+                  meta_placement=['before', 'mixed', 'mixed', 'after'], max_items=3, max_paras=2, cli_mid=0.02),
     'item': dict(weights=_w(0.12, **{t: 1.0 for t in ITEM_OPS}, StorySend=0.4, StoryAppend=0.3, **_LOW),
-                 max_stories=5, max_steps=24, max_items=6, max_paras=4),
-    'mixed': dict(weights=_w(1.0, **_LOW), max_stories=7, max_steps=30, max_items=5, max_paras=3),
+                 max_stories=5, max_steps=24, max_items=6, max_paras=4, cli_mid=0.02),
+    'mixed': dict(weights=_w(1.0, **_LOW), max_stories=7, max_steps=30, max_items=5, max_paras=3, cli_mid=0.02),
     'meta': dict(weights=_w(0.3, MetadataReplace=2.5, ROReplace=0.8, RODelete=0.3, ReadyToAir=0.5), max_stories=5, max_steps=16),
     'end': dict(weights=_w(0.6, RODelete=1.5, ROReplace=0.3), max_stories=5, max_steps=20, force_after_end=True),
     'alias': dict(weights=_w(0.4, StoryAppend=1.5, StoryInsert=1.5, StoryReplace=1.5, EAStoryInsert=1.5, EAStoryReplace=1.5,
@@ -49,7 +49,7 @@ PROFILES = {
 KNOB_SPACE = {
     'indent': [None, None, 1, 2, 4, 'tab'],
     'decl': [False, True],
-    'encoding': ['utf-8', 'utf-8', 'utf-8', 'utf-16', 'iso-8859-1', 'us-ascii'],
+    'encoding': ['utf-8', 'utf-8', 'utf-8', 'utf-16', 'utf-16-be', 'iso-8859-1', 'us-ascii'],
     'cdata': [False, False, True],
     'charref': ['raw', 'raw', 'dec', 'hex'],
     'quote': ['"', "'"],
@@ -121,6 +121,8 @@ def gen_raw(g, R):
 
 def draw_corrupt(R, approx_len):
     k = R.random()
+    if k < 0.08:
+        return {'kind': 'prepend', 'bytes': R.choice([' ', '\n', ' \n\t', '\ufeff '])}
     if k < 0.45:
         return {'kind': 'truncate', 'at': R.randint(0, max(1, approx_len))}
     if k < 0.75:
@@ -223,7 +225,59 @@ def generate_trunc(seed):
             'double': False, 'twin': False, 'prefix': 'ro/'}, 'steps': steps, 'dropped': []}
 
 
+def generate_huge(seed):
+    """a running order with more than 256 children (CPython caches small ints, list indexes beyond that are
+    fresh objects) and a few story-level operations around the far end, including self-referential ones"""
+    from .ncs import Ncs
+    P = dict(PROFILES['story'])
+    g = Ncs(seed, P, True)
+    R = g.R
+    n = R.randint(262, 300)
+    content = [T('roID', g.ro_id), T('roSlug', 'huge')]
+    ids = ['H%d' % i for i in range(n)]
+    for sid in ids:
+        ch = [T('storyID', sid)]
+        if R.random() < 0.5:
+            ch.append(N('mosExternalMetadata', T('mosSchema', 'http://t'), N('mosPayload', T('StoryDuration', '%d' % R.randint(0, 9)))))
+        if R.random() < 0.2:
+            ch.append(N('item', T('itemID', 'i' + sid)))
+        content.append(N('story', *ch))
+    mid = 7
+    steps = [{'k': 'create', 'op': {'type': 'ROCreate', 'mid': mid, 'ro_id': g.ro_id, 'payload': content, 'env': {}}, 'knobs': {}, 'path': 'str'}]
+    far = lambda: ids[R.randint(min(257, len(ids) - 2), len(ids) - 1)]
+    for k in range(R.randint(2, 5)):
+        kind = R.choice(['self-move', 'far-move', 'self-swap', 'far-swap', 'repeat-move', 'far-delete', 'far-send'])
+        a, b = far(), far()
+        mid += 3
+        op = {'ro_id': g.ro_id, 'mid': mid, 'env': {}, 'shapes': {'pos': kind, 'target': 'existing', 'sources': ['existing']}}
+        if kind == 'self-move':
+            op.update(type='StoryMove', sources=[a], target=a)
+        elif kind == 'far-move':
+            op.update(type=R.choice(['StoryMove', 'EAStoryMove']), sources=[a], target=b, tform='id')
+        elif kind == 'self-swap':
+            op.update(type='EAStorySwap', sources=[a, a], tform='absent')
+            op['shapes']['sources'] = ['existing', 'repeat']
+        elif kind == 'far-swap':
+            op.update(type='EAStorySwap', sources=[a, b], tform='absent')
+            op['shapes']['sources'] = ['existing', 'existing']
+        elif kind == 'repeat-move':
+            op.update(type='EAStoryMove', sources=[a, b, a], target=ids[R.randint(0, len(ids) - 1)], tform='id')
+            op['shapes']['sources'] = ['existing', 'existing', 'repeat']
+        elif kind == 'far-delete':
+            op.update(type=R.choice(['StoryDelete', 'EAStoryDelete']), sources=[a, b])
+            op['shapes']['sources'] = ['existing', 'existing']
+            ids = [x for x in ids if x not in (a, b)]
+        else:
+            st = N('story', T('storyID', a), T('p', 'resent'))
+            op.update(type='StorySend', payload=[st], body_span=[1, 2])
+        steps.append({'k': 'msg', 'op': op, 'knobs': {}, 'path': 'str', 'via': 'MosFile'})
+    return {'version': 1, 'seed': seed, 'profile': 'huge', 'config': {'profile': 'huge', 'faulty': True, 'page_size': 3,
+            'double': False, 'twin': False, 'prefix': 'ro/'}, 'steps': steps, 'dropped': []}
+
+
 def generate(seed, profile_name, faulty=None):
+    if profile_name == 'huge':
+        return generate_huge(seed)
     if profile_name == 'kofn':
         return generate_kofn(seed)
     if profile_name == 'trunc':
@@ -360,10 +414,34 @@ def generate(seed, profile_name, faulty=None):
         if P.get('double') and R.random() < 0.5:
             st['double'] = True
         steps.append(st)
+        if op.get('resend') and op['type'] == 'StorySend' and st.get('merge', True) and not st.get('corrupt'):
+            # the same message id again, for the same story, with other content
+            op2 = {'type': 'StorySend', 'ro_id': op['ro_id'], 'shapes': dict(op.get('shapes', {})), 'mid': op['mid'], 'env': op['env']}
+            sid = next(x[2] for x in op['payload'][0][4] if x[0] == 'storyID')
+            g.fill_storysend(op2, sid, g.story_entry(sid))
+            steps.append({'k': 'msg', 'op': op2, 'knobs': draw_knobs(R, plain), 'path': R.choice(['str', 'bytes', 'file', 's3']),
+                          'via': 'MosFile', 'twin_lag': R.choice(lags), 'remid': True, 'key': '%d-StorySend-again.mos.xml' % op['mid']})
+        if P.get('cli_mid') and R.random() < P['cli_mid']:
+            steps.append({'k': 'cli', 'cmd': R.choice(['detect', 'inspect']), 'files': [{'i': 0}], 'src': 'files', 'mid_run': True})
         if RR.random() < restart_rate:
             steps.append({'k': 'restart', 'via': RR.choice(['mem', 'mem', 'file', 'bytes', 's3'])})
         if R.random() < 0.06:
             steps.append({'k': 'inspect'})
+
+    # ---- a last message whose carried payload is not schema-shaped (only C05 judges it) ------------------
+    if faulty and R.random() < P.get('poison_rate', 0.04):
+        saved = g.weights
+        g.weights = {t: 1.0 for t in ('StoryInsert', 'StoryAppend', 'StoryReplace', 'EAStoryInsert', 'EAStoryReplace',
+                                      'ItemInsert', 'ItemReplace', 'EAItemInsert', 'EAItemReplace')}
+        op = g.gen_op()
+        g.weights = saved
+        pay = op.get('payload', [])
+        if len(pay) >= 2 and not op.get('malformed'):
+            k = R.randrange(len(pay) - 1)
+            idt = 'storyID' if pay[k][0] == 'story' else 'itemID'
+            pay[k] = [pay[k][0], pay[k][1], pay[k][2], pay[k][3], [c for c in pay[k][4] if c[0] != idt]]
+            op.update(mid=next_mid(), env={}, malformed=True, poison=True)
+            steps.append({'k': 'msg', 'op': op, 'knobs': {}, 'path': 'str', 'via': 'MosFile', 'twin_lag': 0})
 
     # ---- end of run: collection, CLI, listing -------------------------------------------
     if P.get('batch'):
